@@ -50,7 +50,8 @@ META = {
     "exhaustive": {"quick": True, "thorough": True},
     "require": ["observer_reads", "txnview_reads", "flag_checks", "must_raise_checked", "noact_checked",
                 "savepoint_rollbacks", "savepoint_releases", "outer_commits", "out_of_order_ops",
-                "exhaustive_subtrees_done", "fake_stream_sequences"],
+                "exhaustive_subtrees_done", "fake_stream_sequences", "boundary_failures",
+                "failed_outer_boundary_views"],
     "assumptions": ["SQLite's own SAVEPOINT/ROLLBACK TO/RELEASE implementation is correct",
                     "the observer connection (rollback-journal mode, same file) sees exactly the committed state"],
 }
@@ -58,8 +59,14 @@ META = {
 FULL = ["begin", "nested", "ins", "commit", "rollback", "close", "connect", "cmb", "cmn", "xo", "xe",
         ("hc", 0), ("hr", 0), ("hx", 0), ("hc", 1), ("hr", 1), ("hx", 1), ("hc", 2), ("hr", 2)]
 REDUCED = ["begin", "nested", "ins", "commit", "rollback", ("hc", 0), ("hr", 0), ("hc", 1), ("hr", 1)]
+# boundary failures: fc / fr = conn.commit() / rollback() whose DBAPI call fails, fhc / fhr = handle
+# commit / rollback whose COMMIT / RELEASE resp. ROLLBACK / ROLLBACK TO fails, bad = insert of a row
+# violating a deferred foreign key (the next outer COMMIT fails for real)
+FAULT_OPS = ("fc", "fr", "fhc", "fhr", "bad")
+FAULTY = ["nested", "ins", "bad", "commit", "rollback", "fc", "fr", ("fhc", 0), ("fhr", 0), ("fhc", 1), ("hc", 0),
+          ("hr", 0), ("hc", 1), ("hr", 1), "begin"]
 CREATING = ("begin", "nested", "cmb", "cmn")
-ENDING = ("commit", "rollback", "close", "hc", "hr", "hx", "xo", "xe")
+ENDING = ("commit", "rollback", "close", "hc", "hr", "hx", "xo", "xe", "fc", "fr", "fhc", "fhr")
 STATE_SQL = ("INSERT", "SAVEPOINT", "RELEASE", "ROLLBACK", "BEGIN", "COMMIT")
 
 
@@ -104,6 +111,9 @@ class Env:
         self.path = ctx.tmppath(".db")
         c = sqlite3.connect(self.path)
         c.execute("CREATE TABLE t (id INTEGER PRIMARY KEY)")
+        c.execute("CREATE TABLE p (id INTEGER PRIMARY KEY)")
+        c.execute("CREATE TABLE ch (id INTEGER PRIMARY KEY, pid INTEGER REFERENCES p(id) "
+                  "DEFERRABLE INITIALLY DEFERRED)")
         c.commit()
         c.close()
         self.spy = Spy()
@@ -114,6 +124,7 @@ class Env:
 
             @sa.event.listens_for(self.eng, "connect")
             def _c(dbapi_connection, rec):
+                dbapi_connection.raw.execute("PRAGMA foreign_keys=ON")   # deferred FK: COMMIT itself can fail
                 dbapi_connection.isolation_level = None
 
             @sa.event.listens_for(self.eng, "begin")
@@ -125,6 +136,7 @@ class Env:
             raise ValueError(variant)
         self.obs = observer(self.path)
         self.table = sa.table("t", sa.column("id"))
+        self.child = sa.table("ch", sa.column("id"), sa.column("pid"))
         self.sa = sa
         self.exc = sa.exc
 
@@ -145,9 +157,27 @@ def state_changing(events):
 
 def run_sequence(ctx, env, ops, tag, engine_begin=False, eb_exit="xo"):
     """Execute one op sequence; returns True if it ran to the end without violation."""
-    from vf.models.nested_txn_gg import EITHER, NOACT, OK, RAISE, SKIP, TxnModel
+    import sqlite3
+
+    from vf.models.nested_txn_gg import EITHER, FAIL, NOACT, OK, RAISE, SKIP, TxnModel
 
     spy, obs, exc = env.spy, env.obs, env.exc
+    armed = {"fired": None}
+
+    def arm(*targets):
+        """one-shot, non-disconnect DBAPI failure at the next commit() / rollback() call or the
+        next statement starting with one of the given (upper case) SQL prefixes"""
+        armed["fired"] = None
+        prefixes = tuple(t for t in targets if t.isupper())
+
+        def fault(ev):
+            hit = ev.kind in targets or (bool(prefixes) and ev.kind == "execute" and str(ev.sql).startswith(prefixes))
+            if hit:
+                spy.fault = None
+                armed["fired"] = ev.kind if ev.kind != "execute" else str(ev.sql).split(" sa_")[0]
+                return sqlite3.OperationalError("injected failure")
+        spy.fault = fault
+
     model = TxnModel(autocommit=env.variant == "autocommit")
     conns = []
     rslots = []
@@ -184,6 +214,8 @@ def run_sequence(ctx, env, ops, tag, engine_begin=False, eb_exit="xo"):
     def context_status():
         if model.closed:
             return "closed-connection"
+        if model.failed:
+            return "after-failed-outer-commit"
         if model._ctx_blocked():
             return "inside-ended-context-manager"
         if model.tainted:
@@ -205,7 +237,8 @@ def run_sequence(ctx, env, ops, tag, engine_begin=False, eb_exit="xo"):
                 model.ctx_base = 1
             seq = list(ops)
             if engine_begin:
-                seq = [o for o in seq if o not in ("close", "connect")]
+                seq = [o for o in seq if o not in ("close", "connect")
+                       and (o if isinstance(o, str) else o[0]) not in FAULT_OPS]
                 seq.append("eb_exit")
             for op in seq:
                 kind, arg = (op, None) if isinstance(op, str) else op
@@ -246,8 +279,13 @@ def run_sequence(ctx, env, ops, tag, engine_begin=False, eb_exit="xo"):
                         status = model.status_of(model._slot(arg))
                     elif kind in ("xo", "xe") and len(model.ctx) > model.ctx_base:
                         status = model.status_of(model.ctx[-1])
-                    ident = next(ids) if kind == "ins" else None
-                    exp, apply = model.expect(kind, ident if kind == "ins" else arg)
+                    if kind in FAULT_OPS and env.variant == "autocommit":
+                        continue
+                    if kind == "bad" and (env.variant != "begin_hook" or engine_begin):
+                        continue            # deferred FK rows only where PRAGMA foreign_keys can be on
+                    ident = next(ids) if kind in ("ins", "bad") else None
+                    armed["fired"] = None
+                    exp, apply = model.expect(kind, ident if kind in ("ins", "bad") else arg)
                     if exp == SKIP:
                         ctx.count("ops_skipped")
                         trace.append((opname(op), "skip"))
@@ -275,10 +313,24 @@ def run_sequence(ctx, env, ops, tag, engine_begin=False, eb_exit="xo"):
                             if res.rowcount != 1:
                                 violation("insert-rowcount", op, status, f"rowcount={res.rowcount}")
                                 break
+                        elif kind == "bad":
+                            conn.execute(env.child.insert().values(id=ident, pid=-ident))
                         elif kind == "commit":
                             conn.commit()
                         elif kind == "rollback":
                             conn.rollback()
+                        elif kind == "fc":
+                            arm("commit")
+                            conn.commit()
+                        elif kind == "fr":
+                            arm("rollback")
+                            conn.rollback()
+                        elif kind == "fhc":
+                            arm("commit", "RELEASE")
+                            rslots[arg].commit()
+                        elif kind == "fhr":
+                            arm("rollback", "ROLLBACK TO")
+                            rslots[arg].rollback()
                         elif kind == "hc":
                             rslots[arg].commit()
                         elif kind == "hr":
@@ -293,6 +345,8 @@ def run_sequence(ctx, env, ops, tag, engine_begin=False, eb_exit="xo"):
                             raise RuntimeError(op)
                     except Exception as e:  # noqa: BLE001  (judged below)
                         err = e
+                    finally:
+                        spy.fault = None
                     raised = err is not None
                     performed += 1
                     trace.append((opname(op), type(err).__name__ if raised else "ok", exp))
@@ -302,6 +356,13 @@ def run_sequence(ctx, env, ops, tag, engine_begin=False, eb_exit="xo"):
                     if exp == OK and raised:
                         violation("unexpected-raise", op, status, f"{opname(op)} raised {err!r}")
                         break
+                    if exp == FAIL:
+                        ctx.count("boundary_failures")
+                        ctx.seen("failed_boundary_calls", armed["fired"] or "deferred-constraint-at-commit")
+                        if not raised:
+                            violation("failure-swallowed", op, status,
+                                      f"{opname(op)} did not raise although {armed['fired'] or 'COMMIT'} failed")
+                            break
                     if exp == RAISE:
                         ctx.count("must_raise_checked")
                         if not raised:
@@ -338,6 +399,23 @@ def run_sequence(ctx, env, ops, tag, engine_begin=False, eb_exit="xo"):
                             violation("deactivated-live-handle", op, status,
                                       f"{opname(op)} on {status} deactivated live handle(s) {dead} "
                                       f"without any DBAPI call", mech=mech)
+                            break
+                    if exp == FAIL and (model.failed or model.terminal):
+                        # no savepoint survives its enclosing transaction: looked at before any
+                        # recovery rollback
+                        ctx.count("failed_outer_boundary_views")
+                        what = "commit" if model.failed else "rollback"
+                        alive = [i for i, mh in model.ended_handles() if rslots[i] is not None and rslots[i].is_active]
+                        nested_now = conn.get_nested_transaction()
+                        if alive or conn.in_nested_transaction() or nested_now is not None:
+                            violation("savepoint-alive", op, status,
+                                      f"after the failed outer {what}: handles still active {alive}, "
+                                      f"in_nested_transaction()={conn.in_nested_transaction()}, "
+                                      f"get_nested_transaction()={'set' if nested_now is not None else None}",
+                                      mech=f"savepoint-alive-after-failed-outer-{what}")
+                            break
+                        if model.terminal:
+                            ctx.count("terminal_after_failed_outer_rollback")
                             break
                     if kind in CREATING:
                         rslots.append(new_handle if not raised else None)
@@ -386,6 +464,8 @@ def run_sequence(ctx, env, ops, tag, engine_begin=False, eb_exit="xo"):
                 if not model.tainted:
                     ctx.count("flag_checks")
                     f1, f2 = conn.in_transaction(), conn.in_nested_transaction()
+                    if model.failed:
+                        f1 = model.in_transaction()     # in_transaction() of a failed root: not prescribed
                     if (f1, f2) != (model.in_transaction(), model.in_nested()):
                         violation("flags", op, status,
                                   f"in_transaction={f1} in_nested_transaction={f2} model=({model.in_transaction()},"
@@ -397,7 +477,9 @@ def run_sequence(ctx, env, ops, tag, engine_begin=False, eb_exit="xo"):
                     c.close()
                 except Exception:  # noqa: BLE001
                     pass
+            spy.fault = None
             obs.execute("DELETE FROM t")
+            obs.execute("DELETE FROM ch")
             spy.clear()
     ctx.count("sequences")
     ctx.count("ops_performed", performed)
@@ -418,12 +500,13 @@ def random_sequence(rng, length, variant):
         "ins": 20, "nested": 12 if variant != "autocommit" else 0, "begin": 5, "commit": 5, "rollback": 4,
         "close": 2, "connect": 3, "cmb": 3, "cmn": 6 if variant != "autocommit" else 0, "xo": 5, "xe": 4,
         "hc": 10, "hr": 10, "hx": 4,
+        "fc": 3, "fr": 2, "fhc": 4, "fhr": 3, "bad": 3,
     }
     names = list(weights)
     w = [weights[n] for n in names]
     for _ in range(length):
         k = rng.choices(names, w)[0]
-        if k in ("hc", "hr", "hx"):
+        if k in ("hc", "hr", "hx", "fhc", "fhr"):
             if not ncreate:
                 k = "ins"
             else:
@@ -455,7 +538,7 @@ def fake_stream_part(ctx, nseq):
             if not ctx.budget_ok():
                 break
             ops = random_sequence(rng, rng.randint(4, 14), "fake")
-            ops = [o for o in ops if (o if isinstance(o, str) else o[0]) not in ("close", "connect", "ins")]
+            ops = [o for o in ops if (o if isinstance(o, str) else o[0]) not in ("close", "connect", "ins") + FAULT_OPS]
             model = TxnModel()
             exp, ap = model.expect("connect")
             ap(False)
@@ -601,8 +684,8 @@ def run(ctx):
             ctx.count("random_sequences")
         # ---- exhaustive part; partitioned by the first 2 ops (subtree index)
         plan = ctx.pick({
-            "quick": [("full", FULL, 4), ("reduced", REDUCED, 5)],
-            "thorough": [("full", FULL, 5), ("reduced", REDUCED, 7)],
+            "quick": [("faulty", FAULTY, 4), ("full", FULL, 4), ("reduced", REDUCED, 5)],
+            "thorough": [("faulty", FAULTY, 5), ("full", FULL, 5), ("reduced", REDUCED, 7)],
         })
         sub = 0
         complete = True
